@@ -567,6 +567,22 @@ func run(c Sx) Result {
 				fail("accessors of canonical block #%d (index %d) changed at %s: before %s now %s", bs[i].num, i, where, String(ref.views[i]), String(s.views[i]))
 			}
 		}
+		// a non-canonical block is either answered as before or gone, never altered
+		for i := range bs {
+			if canon[i] {
+				continue
+			}
+			now, was := AsList(s.views[i]), AsList(ref.views[i])
+			for _, j := range []int{1, 2, 3, 4, 7, 8, 11, 12, 13} {
+				a, b := String(now[j]), String(was[j])
+				if a != b && a != "x" && a != "()" && a != "0" {
+					fail("accessor %d of side block #%d (index %d) altered at %s: before %s now %s", j, bs[i].num, i, where, b, a)
+				}
+			}
+			if String(now[0]) != String(was[0]) {
+				fail("canonical hash at height %d changed at %s", bs[i].num, where)
+			}
+		}
 		if String(SL(s.txs)) != String(SL(ref.txs)) {
 			fail("ReadCanonicalTransaction changed at %s", where)
 		}
@@ -868,7 +884,11 @@ func gen(r *Rng, tier string, emit func(Sx)) {
 		}
 		for e := 0; e < nev; e++ {
 			// move the finalized marker forward (mostly)
-			f := main[min(len(main)-1, fin+r.Range(0, 1+len(main)/2))]
+			lo := 1
+			if r.Chance(1, 5) {
+				lo = 0
+			}
+			f := main[min(len(main)-1, fin+r.Range(lo, 1+len(main)/2))]
 			if r.Chance(1, 8) {
 				f = pick()
 			}
